@@ -4,6 +4,8 @@ from lib.facts import Site
 from lib.rules import arg_desc, who_calls, writers_of_field, arg_path, field_writes, G, require_guards
 from lib.tables import enumerate_paths, describe
 
+from lib.rules import owned_by  # noqa: E402
+
 META = dict(
     level='other',
     explanation=(
@@ -90,7 +92,8 @@ def rule_builder(ctx):
     for bb, site, how, f in writers_of_field(ctx, 'payload::validation::SnapshotBuilder'):
         if f == 'refresh' and how == 'assign':
             n += 1
-            ctx.check(bb.nid.endswith('SnapshotBuilder::update_refresh'), 'K3', 'SnapshotBuilder.refresh<-%s' % bb.nid, 'written in update_refresh', 'written in %s' % bb.nid, loc=site.loc())
+            ok, who = owned_by(ctx, bb.nid, ['SnapshotBuilder::update_refresh'])
+            ctx.check(ok, 'K3', 'SnapshotBuilder.refresh<-%s' % who, 'written in update_refresh', 'written in %s' % bb.nid, loc=site.loc())
     ctx.floor('K3', 'assignments to SnapshotBuilder.refresh', n, 1)
     sn = ctx.body('payload::validation::SnapshotBuilder::into_snapshot')
     for s in sn.calls('payload::snapshot::PayloadSnapshot::new'):
